@@ -188,7 +188,7 @@ func runABI(e *core.Env, prop string) error {
 			got := addSeq(full, "valid", false)
 			if prop == "C09" && inDom {
 				e.Add(core.Case{Impl: got, Spec: want, Key: "c09 " + ec.desc + " " + parts[1], Nontrivial: nsel > 0,
-					Tags: []string{"c09-oracle", fmt.Sprintf("nsel=%d", min(nsel, 4)), fmt.Sprintf("arrdepth=%d", depth), fmt.Sprintf("trail=%v", trail != nil)},
+					Tags:   []string{"c09-oracle", fmt.Sprintf("nsel=%d", min(nsel, 4)), fmt.Sprintf("arrdepth=%d", depth), fmt.Sprintf("trail=%v", trail != nil)},
 					Detail: map[string]any{"desc": ec.desc, "event": ev, "value": v, "data": core.Hex(full)}})
 			}
 			if prop == "C10" || vi == 0 {
